@@ -50,6 +50,7 @@ SOURCE["ppid"] = "stat"
 FRONT_MEMOIZED = {"cpu_times", "uids", "ppid", "memory_info"}
 SOURCE["username"] = "status"
 SOURCE["cpu_percent"] = "stat"
+SOURCE["cpu_percent_blocking"] = "stat"        # cpu_percent(interval>0): two samples around a sleep, same cache rules
 
 _env = {}
 
@@ -160,7 +161,7 @@ def gen_events(rng):
             ev.append(["exit_exc" if rng.random() < 0.3 else "exit"])
             depth -= 1
         elif r < 0.80:
-            ev.append(["call", rng.choice(STAT_M[:2] * 3 + STATUS_M * 2 + SMAPS_M + OTHER_M + ["ppid", "cpu_percent", "username", "memory_percent"])])
+            ev.append(["call", rng.choice(STAT_M[:2] * 3 + STATUS_M * 2 + SMAPS_M + OTHER_M + ["ppid", "cpu_percent", "username", "memory_percent", "cpu_percent_blocking"])])
         elif r < 0.84:
             ev.append(["vanish"])
         elif r < 0.88:
@@ -173,7 +174,7 @@ def gen_events(rng):
             elif k < 0.8:
                 attrs = [rng.choice(["name", "uids"]), rng.choice(["bogus", "kill", "wait", "oneshot", "", "children", "_proc"])]
             else:
-                attrs = rng.choice([5, "name", 3.5, "NONLIST"])
+                attrs = rng.choice([5, "name", 3.5, "NONLIST", "", 0, 0.0, False, "EMPTYDICT", "EMPTYRANGE", "EMPTYBYTES"])
             ev.append(["as_dict", attrs, rng.choice([None, "AD", -1])])
         else:
             ev.append(["zombify"])
@@ -284,7 +285,7 @@ def run_events(events, acc):
                 c0 = w.counter
                 denied_before = pending_deny[0]
                 try:
-                    val = getattr(pr, m)()
+                    val = pr.cpu_percent(interval=0.0005) if m == "cpu_percent_blocking" else getattr(pr, m)()
                     res = ("ok", val)
                     if isinstance(val, (list, dict)):
                         # the caller owns what it was handed: scribbling on it must not change any later answer
@@ -363,7 +364,8 @@ def run_events(events, acc):
                 if isinstance(attrs, list) and "ppid" in attrs:
                     safe_only = False
                 try:
-                    d = pr.as_dict(attrs=attrs if attrs != "NONLIST" else {"name": 1}.keys(), ad_value=adv)
+                    special = {"NONLIST": {"name": 1}.keys(), "EMPTYDICT": {}, "EMPTYRANGE": range(0), "EMPTYBYTES": b""}
+                    d = pr.as_dict(attrs=special.get(attrs, attrs) if isinstance(attrs, str) else attrs, ad_value=adv)
                     res = ("ok", d)
                 except ps.NoSuchProcess:
                     res = ("NoSuchProcess", None)
